@@ -1008,7 +1008,7 @@ impl<'a> Run<'a> {
         let state = self.state(key);
         if state == KeyState::ExpiredUnswept && !self.cfg.allow.put_on_expired { return None; }
         let value = self.fresh_token(key);
-        let variant = if self.cfg.saturate { 1 + 2 * self.rng.below(2) } else { self.rng.below(4) };
+        let variant = if self.cfg.saturate { 1 + 2 * self.rng.below(2) } else if self.cfg.focus == "C06" && self.rng.chance(2, 3) { 0 } else { self.rng.below(4) };
         let ttl = self.gen_ttl();
         if !self.cfg.allow.ttl_overflow && ttl > Duration::from_secs(1 << 40) { return None; }
         let weight = self.gen_weight(key);
@@ -1053,6 +1053,7 @@ impl<'a> Run<'a> {
             "C16" => [22, 14, 12, 26, 12, 8, 4, 2],
             "C17" => [26, 34, 10, 6, 4, 12, 4, 4],
             "C01" => [34, 26, 12, 2, 1, 14, 8, 3],
+            "C06" => [40, 6, 10, 30, 8, 4, 1, 1],
             "C05" => [28, 22, 18, 2, 1, 14, 8, 7],
             _ => [24, 20, 12, 12, 4, 16, 6, 6],
         };
